@@ -218,7 +218,9 @@ impl Send {
     ) {
         let is_reset = stream.state.is_reset();
         let is_closed = stream.state.is_closed();
-        let is_empty = stream.pending_send.is_empty();
+        // A DATA frame that is only partially written is held by the codec,
+        // not by the stream's queue; what is left of it still counts as unsent.
+        let is_empty = stream.pending_send.is_empty() && stream.buffered_send_data == 0;
         let stream_id = stream.id;
 
         tracing::trace!(
